@@ -1,4 +1,4 @@
-From Stam Require Import Base.Tac Model.Offset Model.Store Model.StoreObs Spec.StoreSpec
+From Stam Require Import Base.Tac Model.Offset Model.Store Model.StoreExt Model.StoreObs Spec.StoreSpec
      Proofs.StoreInv Proofs.StoreErr Props.C14.
 Check (C14_failed_add_frame : forall s o s',
   match o with AddRes _ _ | AddSet _ | InsData _ | Annotate _ => True | _ => False end ->
@@ -9,3 +9,4 @@ Print Assumptions C14_failed_add_frame.
 Print Assumptions C14_failed_annotate_frame.
 Print Assumptions Known_C14_textselection_left_witness.
 Print Assumptions Known_C14_vocabulary_left_witness.
+Print Assumptions C14_failed_add_dataset_with_data.
